@@ -105,6 +105,18 @@ func c14Init() {
 			b, _ := wire.Encode(n)
 			c14Frames = append(c14Frames, b)
 		}
+		// one frame of every kind the parser decodes (switch-originated base messages, and the
+		// controller-originated kinds a bundle-add may embed), as further single-operation bodies
+		more := append(c04Bases(), corpus.BundleAdd(fm.Clone(), 1), corpus.BundleAdd(corpus.BundleAdd(fm2.Clone(), 1), 2), corpus.BundleCtrl(0, 3), fm.Clone(),
+			corpus.Experimenter(wire.NXVendor, 24, wire.New("nx_tlv_table_mod").Set("Command", 0).Add("TlvMaps", corpus.TlvMap(1))))
+		for _, n := range more {
+			b, _ := wire.Encode(n)
+			if m, err, pn := safeParse(append([]byte{}, b...)); m == nil || err != nil || pn != nil {
+				continue // kinds the parser does not decode are C07's subject
+			}
+			c14Alphabet = append(c14Alphabet, c14Op{"P", len(c14Frames)})
+			c14Frames = append(c14Frames, b)
+		}
 	})
 }
 
@@ -494,7 +506,7 @@ func c14(r *ev.Run, replay string) {
 			run(c14Scenario{Bodies: [][]c14Op{{c14Alphabet[i]}, {c14Alphabet[j]}}, Start: 1})
 		}
 	}
-	r.Completed(fmt.Sprintf("T2b all unordered pairs of the %d single operations (every controller-originated kind in two value variants, 3 parsers, 3 registry users, 2 generators, bundle)", len(c14Alphabet)))
+	r.Completed(fmt.Sprintf("T2b all unordered pairs of the %d single operations (every controller-originated kind in two value variants, a parser of every decodable kind incl. bundle-add nesting, 3 registry users, 2 generators, bundle)", len(c14Alphabet)))
 	// 3 threads: all multisets of single-op bodies over the core alphabet; two-op bodies over the id-drawing ops
 	for i := range small {
 		for j := i; j < len(small); j++ {
